@@ -43,7 +43,7 @@ type cState struct {
 var cKey = frame.FreshKey()
 
 // cExpect maps the address of the first element of a []C column that is about
-// to be written to the index of its batch in its stream. It lets the codec
+// to be written to the number of C column batches written to its stream before it. It lets the codec
 // verify frame.Session's contract ("State returns true the first time the key is
 // encountered in the session") from the outside: a session that loses or shares
 // state shows up as an encode error even if encoder and decoder lose it alike.
@@ -59,7 +59,7 @@ func init() {
 				}
 				if len(s) > 0 {
 					if want, ok := cExpect.Load(&s[0]); ok && want.(int) != st.batches {
-						return fmt.Errorf("C codec: encoder session state says this is batch %d of the stream, it is batch %d", st.batches, want.(int))
+						return fmt.Errorf("C codec: encoder session state has seen %d C column batches in this stream, %d were written", st.batches, want.(int))
 					}
 				}
 				p := make([]byte, 1+4*(j-i))
